@@ -16,6 +16,7 @@
   * `reject_*`        : the rejections the property lists, as corollaries on the reference reader.
 -/
 import RefmtModel
+import RefmtProofs.Lemmas.JsonDec
 set_option linter.unusedSimpArgs false
 set_option linter.unusedVariables false
 namespace Refmt.C05
@@ -63,8 +64,279 @@ def dfaNumber (bs : Bytes) : Bool :=
       | st, c :: cs => (match numStep st c with | .ok (some st') => go st' cs | _ => false)
     go st r
 
+/-! #### number scanner: what `go` computes from each state -/
+
+def notE (c : Nat) : Bool := c != 101 && c != 69
+def notDot (c : Nat) : Bool := c != 46
+
+theorem go_e0 (cs : Bytes) : dfaNumber.go .e0 cs = cs.all isDigit := by
+  induction cs with
+  | nil => simp [dfaNumber.go, numStep, isDigit]
+  | cons c cs ih =>
+    by_cases h : isDigit c = true <;> simp [dfaNumber.go, numStep, h, ih]
+
+theorem go_eSign (cs : Bytes) : dfaNumber.go .eSign cs = digits1 cs := by
+  cases cs with
+  | nil => simp [dfaNumber.go, numStep, isDigit, digits1]
+  | cons c cs =>
+    by_cases h : isDigit c = true <;> simp [dfaNumber.go, numStep, h, digits1, go_e0]
+
+theorem go_e (cs : Bytes) : dfaNumber.go .e cs = isExpTail cs := by
+  cases cs with
+  | nil => simp [dfaNumber.go, numStep, isDigit, digits1, isExpTail]
+  | cons c cs =>
+    by_cases h43 : c = 43
+    · subst h43; simp [dfaNumber.go, numStep, isExpTail, go_eSign]
+    by_cases h45 : c = 45
+    · subst h45; simp [dfaNumber.go, numStep, isExpTail, go_eSign]
+    have : isExpTail (c :: cs) = digits1 (c :: cs) := by
+      unfold isExpTail
+      split
+      · rename_i h; simp at h; exact (h43 h.1).elim
+      · rename_i h; simp at h; exact (h45 h.1).elim
+      · rfl
+    rw [this]
+    by_cases h : isDigit c = true <;> simp [dfaNumber.go, numStep, h, digits1, go_e0, h43, h45]
+
+theorem go_dot0 (f : Bytes) (hf : f.all notE = true) : dfaNumber.go .dot0 f = f.all isDigit := by
+  induction f with
+  | nil => simp [dfaNumber.go, numStep, isDigit]
+  | cons c cs ih =>
+    simp only [List.all_cons, Bool.and_eq_true] at hf
+    have hc := hf.1
+    simp only [notE, Bool.and_eq_true, bne_iff_ne, ne_eq] at hc
+    by_cases h : isDigit c = true <;> simp [dfaNumber.go, numStep, h, ih hf.2, hc.1, hc.2]
+
+theorem go_dot (f : Bytes) (hf : f.all notE = true) : dfaNumber.go .dot f = digits1 f := by
+  cases f with
+  | nil => simp [dfaNumber.go, numStep, isDigit, digits1]
+  | cons c cs =>
+    simp only [List.all_cons, Bool.and_eq_true] at hf
+    by_cases h : isDigit c = true <;> simp [dfaNumber.go, numStep, h, digits1, go_dot0 cs hf.2]
+
+theorem go_s1 (r : Bytes) (he : r.all notE = true) (hd : r.all notDot = true) :
+    dfaNumber.go .s1 r = r.all isDigit := by
+  induction r with
+  | nil => simp [dfaNumber.go, numStep, isDigit]
+  | cons c cs ih =>
+    simp only [List.all_cons, Bool.and_eq_true] at he hd
+    have hc := he.1
+    simp only [notE, Bool.and_eq_true, bne_iff_ne, ne_eq] at hc
+    have hc2 := hd.1
+    simp only [notDot, bne_iff_ne, ne_eq] at hc2
+    by_cases h : isDigit c = true <;> simp [dfaNumber.go, numStep, h, ih he.2 hd.2, hc.1, hc.2, hc2]
+
+theorem go_s0 (r : Bytes) (he : r.all notE = true) (hd : r.all notDot = true) :
+    dfaNumber.go .s0 r = r.isEmpty := by
+  cases r with
+  | nil => simp [dfaNumber.go, numStep, isDigit]
+  | cons c cs =>
+    simp only [List.all_cons, Bool.and_eq_true] at he hd
+    have hc := he.1
+    simp only [notE, Bool.and_eq_true, bne_iff_ne, ne_eq] at hc
+    have hc2 := hd.1
+    simp only [notDot, bne_iff_ne, ne_eq] at hc2
+    simp [dfaNumber.go, numStep, hc.1, hc.2, hc2]
+
+theorem go_neg (r : Bytes) (he : r.all notE = true) (hd : r.all notDot = true) :
+    dfaNumber.go .neg r = isIntPart r := by
+  cases r with
+  | nil => simp [dfaNumber.go, numStep, isDigit, isIntPart]
+  | cons c cs =>
+    simp only [List.all_cons, Bool.and_eq_true] at he hd
+    by_cases h48 : c = 48
+    · subst h48
+      simp only [dfaNumber.go, numStep, beq_self_eq_true, if_true, go_s0 cs he.2 hd.2]
+      cases cs <;> simp [isIntPart]
+    · have : isIntPart (c :: cs) = (decide (49 ≤ c) && decide (c ≤ 57) && cs.all isDigit) := by
+        unfold isIntPart
+        split
+        · rename_i h; simp at h; exact (h48 h.1).elim
+        · rename_i h; simp at h; rw [h.1, h.2]
+        · rename_i h; simp at h
+      rw [this]
+      by_cases h : 49 ≤ c ∧ c ≤ 57
+      · simp [dfaNumber.go, numStep, h48, h.1, h.2, go_s1 cs he.2 hd.2]
+      · have h' : (decide (49 ≤ c) && decide (c ≤ 57)) = false := by
+          rw [Bool.and_eq_false_iff]; simp only [decide_eq_false_iff_not]; omega
+        simp only [dfaNumber.go, numStep]
+        simp [h48, h']
+
+def isInt : NS → Bool | .neg | .s0 | .s1 => true | _ => false
+def isM : NS → Bool | .neg | .s0 | .s1 | .dot | .dot0 => true | _ => false
+
+theorem go_int_split (ip f : Bytes) (he : ip.all notE = true) (hd : ip.all notDot = true) :
+    ∀ st, isInt st = true → dfaNumber.go st (ip ++ 46 :: f) = (dfaNumber.go st ip && dfaNumber.go .dot f) := by
+  induction ip with
+  | nil => intro st hst; cases st <;> simp [isInt] at hst <;> simp [dfaNumber.go, numStep, isDigit]
+  | cons c cs ih =>
+    intro st hst
+    simp only [List.all_cons, Bool.and_eq_true] at he hd
+    have hc := he.1
+    simp only [notE, Bool.and_eq_true, bne_iff_ne, ne_eq] at hc
+    have hc2 := hd.1
+    simp only [notDot, bne_iff_ne, ne_eq] at hc2
+    have ih' := ih he.2 hd.2
+    cases st <;> simp [isInt] at hst
+    · -- neg
+      simp only [List.cons_append, dfaNumber.go, numStep]
+      by_cases h48 : c = 48
+      · simp [h48, ih' .s0 rfl]
+      · by_cases h : 49 ≤ c ∧ c ≤ 57
+        · simp [h48, h.1, h.2, ih' .s1 rfl]
+        · have : ¬ ((decide (49 ≤ c) && decide (c ≤ 57)) = true) := by simpa using h
+          simp [h48, this]
+    · -- s0
+      simp [dfaNumber.go, numStep, hc.1, hc.2, hc2]
+    · -- s1
+      by_cases h : isDigit c = true <;> simp [dfaNumber.go, numStep, h, hc.1, hc.2, hc2, ih' .s1 rfl]
+
+theorem go_mant_split (m e : Bytes) (c : Nat) (hce : c = 101 ∨ c = 69) (he : m.all notE = true) :
+    ∀ st, isM st = true → dfaNumber.go st (m ++ c :: e) = (dfaNumber.go st m && dfaNumber.go .e e) := by
+  induction m with
+  | nil =>
+    intro st hst
+    rcases hce with rfl | rfl <;> cases st <;> simp [isM] at hst <;> simp [dfaNumber.go, numStep, isDigit]
+  | cons x cs ih =>
+    intro st hst
+    simp only [List.all_cons, Bool.and_eq_true] at he
+    have hc := he.1
+    simp only [notE, Bool.and_eq_true, bne_iff_ne, ne_eq] at hc
+    have ih' := ih he.2
+    cases st <;> simp [isM] at hst
+    · -- neg
+      simp only [List.cons_append, dfaNumber.go, numStep]
+      by_cases h48 : x = 48
+      · simp [h48, ih' .s0 rfl]
+      · by_cases h : 49 ≤ x ∧ x ≤ 57
+        · simp [h48, h.1, h.2, ih' .s1 rfl]
+        · have : ¬ ((decide (49 ≤ x) && decide (x ≤ 57)) = true) := by simpa using h
+          simp [h48, this]
+    · -- s0
+      by_cases h46 : x = 46 <;> simp [dfaNumber.go, numStep, hc.1, hc.2, h46, ih' .dot rfl]
+    · -- s1
+      by_cases h : isDigit x = true
+      · simp [dfaNumber.go, numStep, h, hc.1, hc.2, ih' .s1 rfl]
+      · by_cases h46 : x = 46
+        · subst h46; simp [dfaNumber.go, numStep, show isDigit 46 = false by decide, ih' .dot rfl]
+        · simp [dfaNumber.go, numStep, h, hc.1, hc.2, h46]
+    · -- dot
+      by_cases h : isDigit x = true <;> simp [dfaNumber.go, numStep, h, hc.1, hc.2, ih' .dot0 rfl]
+    · -- dot0
+      by_cases h : isDigit x = true <;> simp [dfaNumber.go, numStep, h, hc.1, hc.2, ih' .dot0 rfl]
+
+
+theorem tw_all (p q : Nat → Bool) (l : Bytes) (h : l.all p = true) : (l.takeWhile q).all p = true := by
+  induction l with
+  | nil => rfl
+  | cons x xs ih =>
+    simp only [List.all_cons, Bool.and_eq_true] at h
+    simp only [List.takeWhile_cons]
+    split
+    · simp only [List.all_cons, Bool.and_eq_true]; exact ⟨h.1, ih h.2⟩
+    · rfl
+
+theorem dw_all (p q : Nat → Bool) (l : Bytes) (h : l.all p = true) : (l.dropWhile q).all p = true := by
+  induction l with
+  | nil => rfl
+  | cons x xs ih =>
+    have h' := h
+    simp only [List.all_cons, Bool.and_eq_true] at h'
+    simp only [List.dropWhile_cons]
+    split
+    · exact ih h'.2
+    · exact h
+
+theorem tw_self (p : Nat → Bool) (l : Bytes) : (l.takeWhile p).all p = true := by
+  induction l with
+  | nil => rfl
+  | cons x xs ih =>
+    simp only [List.takeWhile_cons]
+    split
+    · rename_i h; simp only [List.all_cons, Bool.and_eq_true]; exact ⟨h, ih⟩
+    · rfl
+
+theorem dw_head (p : Nat → Bool) (l : Bytes) (c : Nat) (e : Bytes) (h : l.dropWhile p = c :: e) : p c = false := by
+  induction l with
+  | nil => simp at h
+  | cons x xs ih =>
+    simp only [List.dropWhile_cons] at h
+    split at h
+    · exact ih h
+    · rename_i hx
+      simp only [List.cons.injEq] at h
+      rw [← h.1]; simpa using hx
+
+theorem number_split (mant rest : Bytes) (hm : mant.all notE = true)
+    (hr : ∀ c e, rest = c :: e → c = 101 ∨ c = 69) :
+    dfaNumber.go .neg (mant ++ rest) =
+      (dfaNumber.go .neg mant && match (generalizing := false) rest with | [] => true | _ :: e => isExpTail e) := by
+  cases rest with
+  | nil => simp
+  | cons c e =>
+    rw [go_mant_split mant e c (hr c e rfl) hm .neg rfl, go_e]
+
+theorem mant_split (ip fr : Bytes) (he : ip.all notE = true) (hd : ip.all notDot = true)
+    (hfr : ∀ c f, fr = c :: f → c = 46 ∧ f.all notE = true) :
+    dfaNumber.go .neg (ip ++ fr) = (isIntPart ip && match (generalizing := false) fr with | [] => true | _ :: f => digits1 f) := by
+  cases fr with
+  | nil => simp [go_neg ip he hd]
+  | cons c f =>
+    obtain ⟨rfl, hf⟩ := hfr c f rfl
+    rw [go_int_split ip f he hd .neg rfl, go_neg ip he hd, go_dot f hf]
+
+theorem go_neg_body (body : Bytes) :
+    dfaNumber.go .neg body =
+      (isIntPart ((body.takeWhile notE).takeWhile notDot) &&
+       (match (body.takeWhile notE).dropWhile notDot with | [] => true | _ :: f => digits1 f) &&
+       (match body.dropWhile notE with | [] => true | _ :: e => isExpTail e)) := by
+  have h1 := number_split (body.takeWhile notE) (body.dropWhile notE) (tw_self _ _) (by
+    intro c e h
+    have h1 := dw_head _ _ _ _ h
+    simp only [notE, Bool.and_eq_false_iff, bne_eq_false_iff_eq] at h1
+    exact h1)
+  rw [List.takeWhile_append_dropWhile] at h1
+  have h2 := mant_split ((body.takeWhile notE).takeWhile notDot) ((body.takeWhile notE).dropWhile notDot)
+    (tw_all _ _ _ (tw_self _ _)) (tw_self _ _) (by
+      intro c f h
+      have h1 := dw_head _ _ _ _ h
+      have h2 := dw_all notE notDot _ (tw_self notE body)
+      rw [h] at h2
+      simp only [List.all_cons, Bool.and_eq_true] at h2
+      refine ⟨?_, h2.2⟩
+      simpa [notDot] using h1)
+  rw [List.takeWhile_append_dropWhile] at h2
+  rw [h1, h2]
+  rfl
+
+theorem dfa_neg (r : Bytes) : dfaNumber (45 :: r) = dfaNumber.go .neg r := by simp [dfaNumber]
+
+theorem dfa_pos (b : Nat) (r : Bytes) (h45 : b ≠ 45) : dfaNumber (b :: r) = dfaNumber.go .neg (b :: r) := by
+  simp only [dfaNumber, dfaNumber.go, numStep]
+  by_cases h48 : b = 48
+  · subst h48; simp [isDigit]
+  · by_cases h : 49 ≤ b ∧ b ≤ 57
+    · have hd : isDigit b = true := by simp [isDigit]; omega
+      have : (decide (49 ≤ b) && decide (b ≤ 57)) = true := by simp; omega
+      simp [h45, h48, hd, this]
+    · have hd : isDigit b = false := by simp [isDigit]; omega
+      have : (decide (49 ≤ b) && decide (b ≤ 57)) = false := by
+        rw [Bool.and_eq_false_iff]; simp only [decide_eq_false_iff_not]; omega
+      simp [h45, h48, hd, this]
+
 theorem number_dfa (bs : Bytes) : dfaNumber bs = isNumber bs := by
-  sorry
+  cases bs with
+  | nil => decide
+  | cons b r =>
+    by_cases h45 : b = 45
+    · subst h45
+      rw [dfa_neg, go_neg_body]
+      rfl
+    · unfold isNumber
+      split
+      · rename_i h; simp at h; exact (h45 h.1).elim
+      · rw [dfa_pos b r h45, go_neg_body]
+        rfl
 
 /-- char = unescaped / "\" ( one of "\/bfnrt or uXXXX ); unescaped = any byte >= 0x20 except " and \ -/
 def isStringBody : Bytes → Bool
@@ -81,12 +353,190 @@ def dfaStringBody (bs : Bytes) : Bool :=
     | st, c :: cs => (match strStep st c with | .ok (some st') => go st' cs | _ => false)
   go .normal bs
 
-theorem string_dfa (bs : Bytes) : dfaStringBody bs = isStringBody bs := by
-  sorry
+theorem go_u0_short (r : Bytes) (h : ∀ (a b c d : Nat) (r1 : List Nat), r = a :: b :: c :: d :: r1 → False) :
+    dfaStringBody.go .u0 r = false := by
+  have h34 : isHex 34 = false := by decide
+  match r with
+  | [] => simp [dfaStringBody.go, strStep, h34]
+  | [a] => by_cases ha : isHex a <;> simp [dfaStringBody.go, strStep, h34, ha]
+  | [a, b] => by_cases ha : isHex a <;> by_cases hb : isHex b <;> simp [dfaStringBody.go, strStep, h34, ha, hb]
+  | [a, b, c] =>
+    by_cases ha : isHex a <;> by_cases hb : isHex b <;> by_cases hc : isHex c <;>
+      simp [dfaStringBody.go, strStep, h34, ha, hb, hc]
+  | a :: b :: c :: d :: r1 => exact (h a b c d r1 rfl).elim
+
+theorem go_normal (bs : Bytes) : dfaStringBody.go .normal bs = isStringBody bs := by
+  fun_induction isStringBody bs with
+  | case1 => simp [dfaStringBody.go, strStep]
+  | case2 a b c d r ih =>
+    simp only [dfaStringBody.go, strStep]
+    simp
+    by_cases ha : isHex a <;> simp [ha]
+    by_cases hb : isHex b <;> simp [hb]
+    by_cases hc : isHex c <;> simp [hc]
+    by_cases hd : isHex d <;> simp [hd]
+    exact ih
+  | case3 e r hne ih =>
+    simp only [dfaStringBody.go, strStep]
+    simp
+    by_cases h1 : ((((((e = 98 ∨ e = 102) ∨ e = 110) ∨ e = 114) ∨ e = 116) ∨ e = 92) ∨ e = 47) ∨ e = 34
+    · rw [if_pos h1]
+      simp only [ih]
+      have : (e == 34 || e == 92 || e == 47 || e == 98 || e == 102 || e == 110 || e == 114 || e == 116) = true := by
+        simp; omega
+      simp [this]
+    · rw [if_neg h1]
+      have : (e == 34 || e == 92 || e == 47 || e == 98 || e == 102 || e == 110 || e == 114 || e == 116) = false := by
+        simp; omega
+      simp only [this, Bool.false_and]
+      by_cases h2 : e = 117
+      · rw [if_pos h2]
+        simp only
+        exact go_u0_short r (fun a b c d r1 hr => hne a b c d r1 h2 hr)
+      · rw [if_neg h2]
+  | case4 c r h1 h2 ih =>
+    by_cases hc : c = 92
+    · subst hc
+      have : r = [] := by
+        cases r with
+        | nil => rfl
+        | cons e r1 => exact (h2 e r1 rfl rfl).elim
+      subst this
+      simp [dfaStringBody.go, strStep]
+    · simp only [dfaStringBody.go, strStep]
+      by_cases h34 : c = 34
+      · simp [h34]
+      · by_cases hlt : c < 32
+        · have : ¬ c ≥ 32 := by omega
+          simp [h34, hc, hlt, this]
+        · have : c ≥ 32 := by omega
+          simp [h34, hc, hlt, this, ih]
+
+theorem string_dfa (bs : Bytes) : dfaStringBody bs = isStringBody bs := go_normal bs
+
+theorem isb_hi (c : Nat) (r : Bytes) (hc : 0x80 ≤ c) : isStringBody (c :: r) = isStringBody r := by
+  have h92 : c ≠ 92 := by omega
+  have h34 : c ≠ 34 := by omega
+  rw [isStringBody.eq_4]
+  · have : c ≥ 32 := by omega
+    simp [h92, h34, this]
+  · intro a b c' d r1 h; exact (h92 h).elim
+  · intro e r1 h; exact (h92 h).elim
+
+theorem isb_drop_rune (c : Nat) (rest : Bytes) (hc : 0x80 ≤ c) (h : isStringBody (c :: rest) = true) :
+    isStringBody ((c :: rest).drop (max (decodeRune (c :: rest)).2 1)) = true := by
+  rw [isb_hi c rest hc] at h
+  have hlt : ¬ c < 0x80 := by omega
+  simp only [decodeRune]
+  repeat' split
+  all_goals simp_all [isCont]
+  all_goals
+    simp (disch := omega) only [isb_hi] at h
+    exact h
+
+theorem isb_u (rest : Bytes) (h : isStringBody (92 :: 117 :: rest) = true) :
+    ∃ a b c d r, rest = a :: b :: c :: d :: r ∧ isHex a = true ∧ isHex b = true ∧ isHex c = true ∧ isHex d = true ∧
+      isStringBody r = true := by
+  match rest, h with
+  | [], h => simp [isStringBody] at h
+  | [a], h => simp [isStringBody] at h
+  | [a, b], h => simp [isStringBody] at h
+  | [a, b, c], h => simp [isStringBody] at h
+  | a :: b :: c :: d :: r, h =>
+    simp only [isStringBody, Bool.and_eq_true] at h
+    exact ⟨a, b, c, d, r, rfl, h.1.1.1.1, h.1.1.1.2, h.1.1.2, h.1.2, h.2⟩
+
+theorem getu4_some (s : Bytes) (x : Nat) (h : getu4 s = some x) :
+    ∃ a b c d r, s = 92 :: 117 :: a :: b :: c :: d :: r ∧ isHex a = true ∧ isHex b = true ∧ isHex c = true ∧
+      isHex d = true := by
+  unfold getu4 at h
+  split at h
+  · rename_i a b c d r
+    split at h
+    · rename_i hh
+      simp only [Bool.and_eq_true] at hh
+      exact ⟨a, b, c, d, r, rfl, hh.1.1.1, hh.1.1.2, hh.1.2, hh.2⟩
+    · cases h
+  · cases h
+
+theorem map_ex {α β : Type} (f : α → β) (x : Option α) (h : ∃ o, x = some o) : ∃ out, Option.map f x = some out := by
+  obtain ⟨o, rfl⟩ := h
+  exact ⟨_, rfl⟩
+
+theorem unquote_gen (n : Nat) : ∀ (s : Bytes), s.length < n → isStringBody s = true →
+    ∃ out, parseString n s = some out := by
+  induction n with
+  | zero => intro s h; omega
+  | succ n ih =>
+    intro s hl hs
+    cases s with
+    | nil => exact ⟨[], by simp [parseString]⟩
+    | cons c rest =>
+      simp only [List.length_cons] at hl
+      unfold parseString
+      by_cases hc : c = 92
+      · subst hc
+        simp only [beq_self_eq_true, if_true]
+        cases rest with
+        | nil => simp [isStringBody] at hs
+        | cons e rest' =>
+          simp only [List.length_cons] at hl
+          simp only
+          by_cases hu : e = 117
+          · subst hu
+            obtain ⟨a, b, c, d, r, rfl, ha, hb, hc, hd, hr⟩ := isb_u rest' hs
+            simp only [List.length_cons] at hl
+            have hg : getu4 (92 :: 117 :: a :: b :: c :: d :: r) =
+                some (hexNib a * 4096 + hexNib b * 256 + hexNib c * 16 + hexNib d) := by
+              simp [getu4, ha, hb, hc, hd]
+            rw [hg]
+            simp only [List.drop_succ_cons, List.drop_zero]
+            simp only [show (117 == 34 || 117 == 92 || 117 == 47 || 117 == 39) = false by decide,
+              show (117 == 98) = false by decide, show (117 == 102) = false by decide,
+              show (117 == 110) = false by decide, show (117 == 114) = false by decide,
+              show (117 == 116) = false by decide, Bool.false_eq_true, if_false, beq_self_eq_true, if_true]
+            have hr' := ih r (by omega) hr
+            split
+            · split
+              · rename_i rr1 hg1
+                obtain ⟨a', b', c', d', r2, rfl, _, _, _, _⟩ := getu4_some _ _ hg1
+                split
+                · simp only [List.drop_succ_cons, List.drop_zero]
+                  obtain ⟨_, _, _, _, r3, h3, _, _, _, _, hr3⟩ := isb_u _ hr
+                  simp only [List.cons.injEq] at h3
+                  obtain ⟨_, _, _, _, rfl⟩ := h3
+                  simp only [List.length_cons] at hl
+                  exact map_ex _ _ (ih r2 (by omega) hr3)
+                · exact map_ex _ _ hr'
+              · exact map_ex _ _ hr'
+            · exact map_ex _ _ hr'
+          · rw [isStringBody.eq_3 _ _ (by intro a b c d r h; exact (hu h).elim)] at hs
+            simp only [Bool.and_eq_true, Bool.or_eq_true, beq_iff_eq] at hs
+            obtain ⟨he, hr⟩ := hs
+            have hr' := ih rest' (by omega) hr
+            repeat' split
+            all_goals first
+              | exact map_ex _ _ hr'
+              | (exfalso; simp_all; omega)
+              | (exfalso; simp_all)
+      · have hc' : (c == 92) = false := by simp [hc]
+        rw [hc']
+        simp only [Bool.false_eq_true, if_false]
+        rw [isStringBody.eq_4 _ _ (by intro a b c' d r1 h; exact (hc h).elim) (by intro e r1 h; exact (hc h).elim)] at hs
+        simp only [Bool.and_eq_true, bne_iff_ne, ne_eq, decide_eq_true_eq] at hs
+        obtain ⟨⟨⟨h34, _⟩, h32⟩, hr⟩ := hs
+        have : ¬ ((c == 34 || decide (c < 32)) = true) := by simp [h34]; omega
+        rw [if_neg this]
+        by_cases h80 : c < 0x80
+        · rw [if_pos h80]
+          exact map_ex _ _ (ih rest (by omega) hr)
+        · rw [if_neg h80]
+          have hb : isStringBody (c :: rest) = true := by rw [isb_hi c rest (by omega)]; exact hr
+          have := isb_drop_rune c rest (by omega) hb
+          exact map_ex _ _ (ih _ (by simp only [List.length_drop, List.length_cons]; omega) this)
 
 theorem unquote_total (bs : Bytes) (h : isStringBody bs = true) :
-    ∃ out, parseString (bs.length + 1) bs = some out := by
-  sorry
+    ∃ out, parseString (bs.length + 1) bs = some out := unquote_gen _ bs (by omega) h
 
 /-! ### The machine refines the reference reader -/
 
@@ -94,20 +544,30 @@ theorem refine (bs : Bytes) (hb : ∀ x ∈ bs, x < 256) :
     let o := JsonDec.decode (Rd.ofBytes bs)
     match Spec.Json.parse bs with
     | some (v, rest) => o.toks = v.flatten ∧ o.res = .ok () ∧ o.rd.data = rest
-    | none => ∃ e, o.res = .error e := by
-  sorry
+    | none => ∃ e, o.res = .error e :=
+  C05L.decode_refines bs
 
 /-! ### Listed rejections (corollaries on the reference reader) -/
 
 /-- a misspelt or truncated literal is rejected -/
 theorem reject_literal (rest : Bytes) (h1 : ¬ Spec.Json.startsWith [117, 108, 108] rest) :
     Spec.Json.parse (110 :: rest) = none := by
-  sorry
+  have e : 2 * (110 :: rest).length + 2 = (2 * rest.length + 3) + 1 := by simp; omega
+  unfold Spec.Json.parse
+  rw [e, Spec.Json.parseValue]
+  simp [Spec.Json.skip, isWs, h1]
 
 /-- a key that is not a string is rejected -/
 theorem reject_nonstring_key (b : Nat) (rest : Bytes) (hb : b ≠ 34) (hc : b ≠ 125) (hw : isWs b = false) :
     Spec.Json.parse (123 :: b :: rest) = none := by
-  sorry
+  have e : 2 * (123 :: b :: rest).length + 2 = (2 * rest.length + 4) + 1 + 1 := by simp; omega
+  unfold Spec.Json.parse
+  rw [e, Spec.Json.parseValue]
+  simp only [Spec.Json.skip, isWs]
+  simp
+  rw [Spec.Json.parseMembers]
+  simp [Spec.Json.skip, hw, hc]
+  split <;> simp_all
 
 /-- an unterminated document (input ends inside the value) is rejected -/
 theorem reject_unterminated_array : Spec.Json.parse [91, 49] = none := by decide
